@@ -41,19 +41,25 @@ MANIFEST = dict(
          "Fraction(i,k)*4, 03/08 tempo, lane lookup per layout, per-lane stable sort by position then LNOBJ pairing, measure-0 "
          "override, times through the C10/C11 timing model) tied to the code on every run by in-Coq correspondence (exact on "
          "fractions.Fraction, and a rounded float stream), plus an independent reference interpreter bms_denote evaluated on every "
-         "chart the implementation returns. Proved: C04_bms_read_denotes -- for every layout and every text in the decidable domain "
-         "read_theorem_domain (tempo objects pairwise on the 1/96 grid, an origin tempo object listed first, every LN tail has a "
-         "head, and the reader's line loop collects the format's object list), lines in any order and overlaid: whenever the read "
-         "returns, hits and holds are lane by lane exactly the objects the format assigns (LN head = preceding object of the lane "
-         "in time), in the lane's column, at the integrated time of the 03/08/#BPM tempo script (via C10's offsets_on_grid_b), with "
-         "WAV[id]; C04_bms_read_header (whole file, outright: a header line #K v not overwritten later is retained as "
-         "title/artist/level/LNOBJ/misc); id/measure codecs inverse; pair position 4i/k; layout obligations by vm_compute on the "
-         "regenerated tables. The domain clause 'line loop collects the format's object list' is evaluated per generated text by "
-         "the runner, not proved from wf_bms_lines. Without the grid guard the statement is refuted by a machine-checked witness "
-         "(KNOWN finding tempo-offgrid-resnap).",
-    note="Trusted: Coq kernel+VM, generator/serialiser, gen_tables, shift_jis codec (oracle). Not proved: the text-level parsing "
-         "refinement (wf_bms_lines -> read_theorem_domain; checked on every generated text), the initial-tempo clause through "
-         "reseat (C11), binary64 rounding (rounded stream, 1e-6 ms).",
+         "chart the implementation returns. Proved, on a TEXT-LEVEL decidable domain only: C04_bms_read_text -- for every layout "
+         "satisfying the layout obligations (vm_compute on the regenerated tables) and every text with wf_bms_lines (the property's "
+         "quantifier = what the runner evaluates as wf) and read_guards (tempo objects pairwise on the 1/96 grid, a tempo object at the "
+         "origin listed first), lines in any order and overlaid: whenever the read returns a chart, it is the chart bms_denote assigns "
+         "to the text, rows up to order (hits and holds as multisets: column, sample, time of the 03/08/#BPM script by integration; "
+         "title/artist/level/LNOBJ/#BPMxx/#WAVxx tables; other headers in misc). Its parts, each for all inputs: C04_text_in_domain "
+         "(the parsing refinement: the reader's line loop, header dict and pair loop collect exactly the format's header table and "
+         "object list, the script lies in C10's domain), C04_lanes_order (columns ascending = layout order as multisets), "
+         "C04_ln_pairing_refines, C04_tempo_script, C04_bms_read_denotes (per lane in time order, via C10's offsets_on_grid_b). "
+         "C04_bms_read_returns: on that domain the read returns exactly when TimingMap.reseat() (C11) returns and the chart's tempo list "
+         "is reseat's. C04_bms_read_initial_tempo: under the decidable text-level guard reseat_textb (script inside C11's wf_unseated "
+         "and no_extend, no tempo object strictly inside measure 0) the read returns and the tempo list starts at 0 ms with the denoted "
+         "initial tempo. C04_bms_read_header (whole file, outright); id/measure codecs inverse; pair position 4i/k. Without the grid "
+         "guard the statement is refuted by a machine-checked witness (KNOWN finding tempo-offgrid-resnap).",
+    note="Trusted: Coq kernel+VM, generator/serialiser, gen_tables, shift_jis codec (oracle). Not proved: the rest of the reseated tempo "
+         "list beyond its first point (C11's ReseatOK applies under reseat_guard but is not restated here), the initial tempo when a "
+         "tempo object lies strictly inside measure 0 (reseat re-expresses it as a shorter first measure), binary64 rounding "
+         "(rounded stream, 1e-6 ms). The runner still evaluates read_theorem_domain per wf text as a redundant cross-check of "
+         "C04_text_in_domain.",
     technique="Coq executable model + reference interpreter + vm_compute correspondence against the implementation",
     design="4/C04")
 
